@@ -27,15 +27,14 @@ Theorem c17_reach_bounded : forall kps K cf,
 Proof. exact reach_bounded. Qed.
 Print Assumptions c17_reach_bounded.
 
-(* sealing never panics *)
-Theorem c17_build_total : forall o r ctx payload kps cf,
-  idx_ok (length kps) (cf_grants cf) = true \/ True ->
-  forall env, build o r ctx payload kps (Some cf) = Ok env -> e_keypairs env = kps /\ e_threshold env = cf_threshold cf.
+(* an accepted envelope carries the recipients and the threshold it was configured with *)
+Theorem c17_build_fields : forall o r ctx payload kps cf env,
+  build o r ctx payload kps (Some cf) = Ok env -> e_keypairs env = kps /\ e_threshold env = cf_threshold cf.
 Proof.
-  intros o r ctx payload kps cf _ env HB. apply build_inv in HB.
+  intros o r ctx payload kps cf env HB. apply build_inv in HB.
   destruct HB as (cf' & gs & Hcf & _ & _ & _ & _ & _ & _ & ->). inversion Hcf; subst. split; reflexivity.
 Qed.
-Print Assumptions c17_build_total.
+Print Assumptions c17_build_fields.
 
 (* non-vacuity: the historical counter-examples are rejected by the model of the repaired code *)
 Definition ex_orc : orc := {| o_valid := fun _ => true; o_s2raw := fun _ => None; o_s2len := fun _ => 0%nat |}.
